@@ -9,7 +9,11 @@ From Coq Require Import ZArith List Arith Lia Bool PeanoNat.
 From TV Require Import Common.PySlice.
 Import ListNotations.
 
-Inductive exn := IndexError | ValueError | TraitError | TypeError | OtherError.
+Inductive exn := IndexError | ValueError | TraitError | TypeError | OtherError | OverflowError.
+
+(* integers that fit Py_ssize_t: list.insert / list.pop / list *= convert their argument to a machine word and raise
+   OverflowError otherwise (item access and slices clamp or raise IndexError instead) *)
+Definition fits (i : BinNums.Z) : bool := BinInt.Z.leb (BinInt.Z.opp 9223372036854775808) i && BinInt.Z.ltb i 9223372036854775808.
 Inductive res (A : Type) := Ok (a : A) | Raise (e : exn).
 Arguments Ok {A} a.
 Arguments Raise {A} e.
